@@ -433,6 +433,9 @@ func (q Req) Build(o *Obs, trace *[]string) *http.Request {
 		Host:   q.Host,
 		Body:   http.NoBody,
 	}
+	if raw := rawSpelling(q.Path); raw != "" {
+		r.URL.RawPath = raw
+	}
 	if q.Body != "" {
 		r.Body = nopCloser{strings.NewReader(q.Body)}
 		r.ContentLength = int64(len(q.Body))
@@ -445,6 +448,44 @@ func (q Req) Build(o *Obs, trace *[]string) *http.Request {
 		ctx = context.WithValue(ctx, traceKey{}, trace)
 	}
 	return r.WithContext(ctx)
+}
+
+// rawSpelling is what net/http puts into URL.RawPath when the client spelled the request target with percent-escapes
+// it did not have to use (%41 for A, %2F for a slash inside a value): Path holds the decoded bytes, RawPath the
+// spelling as sent. About half of the paths get one (decided by the path itself, so a replay builds the same request);
+// the router works on Path, so nothing may depend on it.
+func rawSpelling(path string) string {
+	if path == "" || path == "*" {
+		return ""
+	}
+	h := 0
+	for i := 0; i < len(path); i++ {
+		h = h*31 + int(path[i])
+	}
+	if h&1 == 0 {
+		return ""
+	}
+	const hex = "0123456789ABCDEF"
+	var b strings.Builder
+	changed := false
+	for i := 0; i < len(path); i++ {
+		c := path[i]
+		alnum := c >= '0' && c <= '9' || c >= 'a' && c <= 'z' || c >= 'A' && c <= 'Z'
+		must := c <= ' ' || c >= 0x7f || strings.IndexByte("%?#\"<>[]^`{|}", c) >= 0
+		opt := (alnum || c == '/' && i > 0 || c == '.' || c == '-') && (i+h)%3 == 0
+		if must || opt {
+			b.WriteByte('%')
+			b.WriteByte(hex[c>>4])
+			b.WriteByte(hex[c&15])
+			changed = changed || opt
+		} else {
+			b.WriteByte(c)
+		}
+	}
+	if !changed {
+		return ""
+	}
+	return b.String()
 }
 
 type nopCloser struct{ *strings.Reader }
